@@ -192,30 +192,38 @@ def bodyItems (f : Name) : PState → List BodyItem → Except ParseErr (PState 
     let (st, us) ← bodyItems f st rest
     pure (st, u ++ us)
 
+/-- `function`, up to `if (consume(&tok, tok, ";")) return tok;`: look the name up, check the redeclaration,
+    create or update the object, set `is_root` -/
+def declFunctionHead (st : PState) (f : Name) (isStatic isExtern isInline hasBody : Bool) : Except ParseErr PState :=
+  match findFunc st.globals f with
+  | some fn =>
+    if fn.isDefinition && hasBody then .error (.redefinition f)
+    else if !fn.isStatic && isStatic then .error (.staticAfterNonStatic f)
+    else .ok { st with
+      globals := updFunc (updFunc st.globals f (fun o => { o with isDefinition := o.isDefinition || hasBody })) f
+        -- `if (!(fn->is_static && fn->is_inline)) fn->is_root = true;`
+        (fun o => if !(o.isStatic && o.isInline) then { o with isRoot := true } else o) }
+  | none =>
+    let fn : Obj := { sym := .named f, isFunction := true, isDefinition := hasBody,
+                      isStatic := isStatic || (isInline && !isExtern), isInline := isInline }
+    .ok { st with
+      globals := updFunc (fn :: st.globals) f (fun o => if !(o.isStatic && o.isInline) then { o with isRoot := true } else o) }
+
 /-- `function` -/
 def declFunction (st : PState) (f : Name) (nameLen : Nat) (isStatic isExtern isInline : Bool)
-    (body : Option (List BodyItem)) : Except ParseErr PState := do
-  let st ← match findFunc st.globals f with
-    | some fn =>
-      if fn.isDefinition && body.isSome then throw (.redefinition f)
-      else if !fn.isStatic && isStatic then throw (.staticAfterNonStatic f)
-      else pure { st with
-        globals := updFunc st.globals f (fun o => { o with isDefinition := o.isDefinition || body.isSome }) }
-    | none =>
-      pure { st with globals :=
-        { sym := .named f, isFunction := true, isDefinition := body.isSome,
-          isStatic := isStatic || (isInline && !isExtern), isInline := isInline } :: st.globals }
-  -- `if (!(fn->is_static && fn->is_inline)) fn->is_root = true;`
-  let st := { st with
-    globals := updFunc st.globals f (fun o => if !(o.isStatic && o.isInline) then { o with isRoot := true } else o) }
-  match body with
-  | none => pure st
-  | some items =>
-    -- `__func__`, `__FUNCTION__`
-    let (st, _) := newAnon st (strTy (nameLen + 1)) true
-    let (st, _) := newAnon st (strTy (nameLen + 1)) true
-    let (st, uses) ← bodyItems f st items
-    pure { st with globals := updFunc st.globals f (fun o => { o with uses := uses }) }
+    (body : Option (List BodyItem)) : Except ParseErr PState :=
+  match declFunctionHead st f isStatic isExtern isInline body.isSome with
+  | .error e => .error e
+  | .ok st =>
+    match body with
+    | none => .ok st
+    | some items =>
+      -- `__func__`, `__FUNCTION__`
+      let st := (newAnon st (strTy (nameLen + 1)) true).1
+      let st := (newAnon st (strTy (nameLen + 1)) true).1
+      match bodyItems f st items with
+      | .error e => .error e
+      | .ok (st, uses) => .ok { st with globals := updFunc st.globals f (fun o => { o with uses := uses }) }
 
 /-- `global_variable` (one declarator) -/
 def declObject (st : PState) (x : Name) (isStatic isExtern isTls : Bool) (ty : ObjTy)
